@@ -202,7 +202,10 @@ pub fn active() -> bool {
 #[allow(deprecated)]
 pub(crate) fn point() {
     if active() && !std::thread::panicking() {
+        // allocation accounting (C15) only covers subject code: not the scheduler that runs while we are suspended
+        let t = crate::alloc::track(false);
         generator::yield_with(());
+        crate::alloc::track(t);
         if CANCEL.with(|c| c.get()) {
             std::panic::resume_unwind(Box::new(CancelToken));
         }
@@ -215,6 +218,7 @@ fn with_exec<R>(f: impl FnOnce(&mut Exec) -> R) -> Option<R> {
 }
 
 pub(crate) fn new_loc(init: u64) -> u32 {
+    let _nt = crate::alloc::NoTrack::new();
     with_exec(|e| {
         let id = e.locs.len() as u32;
         e.locs.push(Loc { val: init, rel: [0; MAXT], writer: (u32::MAX, 0), ver: 0 });
@@ -254,6 +258,7 @@ pub(crate) fn after_load(loc: u32, val: u64, o: Ordering, kind: Kind) {
     if !active() || loc == u32::MAX {
         return;
     }
+    let _nt = crate::alloc::NoTrack::new();
     with_exec(|e| {
         let t = e.cur;
         let step = e.trace.len() as u64;
@@ -356,6 +361,7 @@ pub(crate) fn after_write(loc: u32, old: u64, new: u64, o: Ordering, rmw: bool) 
     if !active() || loc == u32::MAX {
         return;
     }
+    let _nt = crate::alloc::NoTrack::new();
     with_exec(|e| {
         let t = e.cur;
         let step = e.trace.len() as u64;
@@ -431,6 +437,7 @@ pub fn cell_access(cell: u32, write: bool, what: &str) {
     if !active() {
         return;
     }
+    let _nt = crate::alloc::NoTrack::new();
     with_exec(|e| {
         let t = e.cur;
         let vc = e.ths[t].vc;
@@ -476,6 +483,7 @@ fn push_violation(e: &mut Exec, prop: &str, class: &str, msg: String, step: usiz
 
 /// Record a property violation observed in the current execution (deduplicated per (prop, class)).
 pub fn violation(prop: &str, class: &str, msg: String) {
+    let _nt = crate::alloc::NoTrack::new();
     with_exec(|e| {
         let step = e.trace.len();
         push_violation(e, prop, class, msg, step);
